@@ -507,8 +507,11 @@ class POXCore (EventMixin):
     if name in self.components:
       log.warn("Warning: Registered '%s' multipled times" % (name,))
     self.components[name] = component
-    self.raiseEventNoErrors(ComponentRegistered, name, component)
-    self._try_waiters()
+    try:
+      self.raiseEventNoErrors(ComponentRegistered, name, component)
+    finally:
+      # Whatever a ComponentRegistered listener did, the component is there
+      self._try_waiters()
 
   def call_when_ready (self, callback, components=[], name=None, args=(),
                        kw={}):
